@@ -46,7 +46,58 @@ def load_lib():
     want = os.path.realpath(os.path.join(src, 'PseudoNetCDF'))
     if got != want:
         raise RuntimeError('library loaded from %s, expected %s' % (got, want))
+    snapshot_globals()
     return PseudoNetCDF
+
+
+_GLOBALS = None
+
+
+def snapshot_globals():
+    """Own the library's process-global mutable state: remember every module-level and class-level
+    list/dict/set of the (fully imported) library, so that every case starts from the same state
+    whatever ran before it in this worker.  History dependence is explored by explicit sequences
+    inside a case (C04 'seq', C07 'prior', C15 histories), never by accident of case order."""
+    global _GLOBALS
+    if _GLOBALS is not None:
+        return
+    import collections
+    plain = (list, dict, set, collections.OrderedDict)
+
+    def cp_(x):
+        return type(x)(x)
+    out = []
+    for mn, m in sorted(sys.modules.items()):
+        if not mn.startswith('PseudoNetCDF') or m is None:
+            continue
+        for an, a in list(vars(m).items()):
+            if an.startswith('__'):
+                continue
+            if type(a) in plain and getattr(m, '__name__', '') == mn:
+                out.append((a, cp_(a), '%s.%s' % (mn, an)))
+            if isinstance(a, type) and a.__module__ == mn:
+                for cn, c in list(vars(a).items()):
+                    if not cn.startswith('__') and type(c) in plain:
+                        out.append((c, cp_(c), '%s.%s.%s' % (mn, a.__name__, cn)))
+    _GLOBALS = out
+
+
+def restore_globals():
+    """returns the names of the containers that had to be restored"""
+    changed = []
+    for c, cp, name in _GLOBALS or ():
+        try:
+            same = (c == cp) and (not isinstance(c, list) or all(x is y for x, y in zip(c, cp)))
+        except Exception:
+            same = False
+        if not same:
+            changed.append(name)
+            if isinstance(c, list):
+                c[:] = cp
+            else:
+                c.clear()
+                c.update(cp)
+    return changed
 
 
 def lib_info():
@@ -175,10 +226,15 @@ def _winit(modname, tier):
     import warnings
     warnings.simplefilter('ignore')
     signal.signal(signal.SIGALRM, _alarm)
-    mod = importlib.import_module(modname)
-    prop = mod.Prop()
-    prop.tier = tier
-    prop.worker_init()
+    try:
+        mod = importlib.import_module(modname)
+        prop = mod.Prop()
+        prop.tier = tier
+        prop.worker_init()
+    except BaseException:
+        # an exception here would make the pool respawn workers forever: report it with the first chunk
+        _W['init_error'] = traceback.format_exc()
+        return
     gc.collect()
     gc.freeze()      # keep explicit gc.collect() events cheap: ignore the import-time heap
     gc.disable()
@@ -188,6 +244,7 @@ def _winit(modname, tier):
 def run_case_guarded(prop, case):
     """Run one case under the watchdog.  Returns (result, harness_error)."""
     import warnings
+    restore_globals()
     prop.before_case()
     signal.setitimer(signal.ITIMER_REAL, prop.HORIZON)
     try:
@@ -210,8 +267,11 @@ def run_case_guarded(prop, case):
 
 def _wchunk(chunk):
     import gc
-    prop = _W['prop']
     agg = new_agg()
+    if 'init_error' in _W:
+        agg['harness'].append({'case': None, 'trace': 'worker initialisation failed:\n' + _W['init_error']})
+        return agg
+    prop = _W['prop']
     for gidx, group in chunk:
         ci = 0
         for case in prop.expand(group):
